@@ -413,6 +413,17 @@ class C02(Prop):
                 break
             nan_here = any(isinstance(o[1], float) and o[1] != o[1] for o in (same, fresh) if o[0] == 'val')
 
+            def _is_nan_code(v):
+                # port values are encoded as 'f' + 16 hex digits of the binary64 bit pattern ('i…' for ints)
+                if isinstance(v, str) and v.startswith('f') and len(v) == 17:
+                    bits = int(v[1:], 16)
+                    return (bits >> 52) & 0x7ff == 0x7ff and bits & ((1 << 52) - 1) != 0
+                return False
+            # a NaN fed into a LUT/LUTLI table by THIS context (not visible in the root outcome): list.sort with NaN
+            # keys is algorithm-dependent, not compared (same rule as for the first context)
+            nan_here = nan_here or any(_is_nan_code(v) for v in st.get('vals', {}).values()) or \
+                any(_is_nan_code(pv.get('last')) for pv in st.get('ports', {}).values())
+
             def agree(a, b):
                 if a[0] != b[0]:
                     return False
